@@ -1051,8 +1051,12 @@ pub unsafe extern "C" fn getenv(name: *const libc::c_char) -> *mut libc::c_char 
     if let Some(flip) = policy {
         let ns = String::from_utf8_lossy(n).into_owned();
         let flipped = flip.iter().any(|f| *f == ns);
-        if let Ok(mut q) = ENV_QUERIED.lock() {
-            q.insert(ns);
+        // std itself asks for RUST_BACKTRACE / RUST_LIB_BACKTRACE / RUST_MIN_STACK once per process
+        // (first panic, first thread): those are not the code under test
+        if !ns.starts_with("RUST_") && !ns.starts_with("VERIF_") {
+            if let Ok(mut q) = ENV_QUERIED.lock() {
+                q.insert(ns);
+            }
         }
         if flipped {
             return if real.is_null() { FLIPPED_VALUE.as_ptr() as *mut libc::c_char } else { std::ptr::null_mut() };
